@@ -781,6 +781,10 @@ impl WorkingDir {
     pub fn module_path(&self, module: &Module) -> PathBuf {
         let mut res = self.base.clone();
         res.push(&module.0[8..]);
+        #[cfg(feature = "verif-hooks")]
+        crate::verif::point("path.map", || {
+            format!("rsync-module\t{}\t{}", &module.0, res.display())
+        });
         res
     }
 
@@ -790,6 +794,10 @@ impl WorkingDir {
         res.push(uri.canonical_authority().as_ref());
         res.push(uri.module_name());
         res.push(uri.path());
+        #[cfg(feature = "verif-hooks")]
+        crate::verif::point("path.map", || {
+            format!("rsync-file\t{}\t{}", uri, res.display())
+        });
         res
     }
 }
